@@ -278,4 +278,5 @@ def run(ctx):
     init_decided_by_content(ctx, '12')
     shared.allocation_state_belongs_to_a_record(ctx, '13')
     shared.deferral_keeps_commit_order(ctx, '14')   # the log holds the commits in commit order: a prefix of the log is a prefix of the history
+    shared.record_goes_to_the_table_it_names(ctx, '15')   # replay validates and applies an action against the table it names
     shared.old_table_records_skipped(ctx, '11')   # a dropped table named by an old record must not make replay discard the log
